@@ -130,7 +130,8 @@ def run(tier, seed, t0):
             rep.known_finding(f["id"], f["what"])
     # end to end over the sites
     per_op = 2 if tier == "quick" else 12
-    items = []
+    from props.c01 import corpus_items
+    items = corpus_items(PROP)
     for op in OPS:
         pairs = [(a, b) for a in BOUND for b in BOUND if in_domain(op, a, b)]
         rng.shuffle(pairs)
